@@ -99,6 +99,7 @@ fn check_payloads(w: &mut World) {
             by_server.entry(*a).or_default().insert((h, l));
         }
     }
+    let mut ts_before_connect: Vec<(SocketAddr, u64, usize, u64)> = Vec::new();
     let mut seen: HashSet<(SocketAddr, u64)> = HashSet::new();
     // zero-length packets all look alike: no more of them delivered than submitted
     let mut empty_got: HashMap<SocketAddr, usize> = HashMap::new();
@@ -113,6 +114,27 @@ fn check_payloads(w: &mut World) {
             } else if !seen.insert((*a, h)) {
                 w.viol("C01", "ep-delivered-twice", format!("server handed the application the same {}-byte packet from {} a second time at t={} ms", l, a, e.t_ns / MS));
             }
+        }
+    }
+    // C12 at endpoint level: a TimeSensitive packet handed to Client::send() while the client is
+    // still connecting cannot begin transmission before a later step() has run (the one that
+    // completes the handshake): it must never reach the server application
+    for c in w.clients.iter() {
+        let conn = c.events.iter().find(|e| e.ev == Ev::Connect).map(|e| (e.t_ns, e.step_no));
+        for e in c.events.iter() {
+            if let Ev::AppSend(h, l, 0) = e.ev {
+                let before_connect = conn.map_or(true, |cn| (e.t_ns, e.step_no) < cn);
+                if before_connect && l > 0 {
+                    ts_before_connect.push((c.addr, h, l, e.t_ns));
+                }
+            }
+        }
+    }
+    for (a, h, l, t) in ts_before_connect.iter() {
+        w.c.inc("c12_ts_sends_before_connect");
+        if sev.iter().any(|(x, e)| x == a && e.ev == Ev::Receive(*h, *l)) {
+            w.viol("C12", "ts-queued-before-connect-delivered", format!("a {}-byte TimeSensitive packet handed to Client::send() at t={} ms, before the client at {} was connected, was delivered to the server application: its transmission cannot have begun before a later step()", l, t / MS, a));
+            break;
         }
     }
     let mut empties: Vec<(SocketAddr, usize)> = empty_got.into_iter().collect();
@@ -193,6 +215,11 @@ fn check_disconnect(w: &mut World, ci: usize, t_end_ns: u64) -> bool {
                 if e.t_ns > w.clients[ci].dropped_ns.unwrap_or(u64::MAX) {
                     break;
                 }
+                // ... and so does one reported after this client object had already ended
+                let c_end = cev.iter().find(|x| matches!(x.ev, Ev::Disconnect | Ev::Error(_))).map(|x| x.t_ns);
+                if c_end.map_or(false, |t| e.t_ns > t + SEC) {
+                    break;
+                }
                 // the server-side connection belongs to this client object iff the SYN-ACK it
                 // answered echoes this object's SYN nonce
                 let last_synack = w.wire.iter().filter(|r| r.src == w.server.addr && r.dst == addr && r.t_ns <= e.t_ns).filter_map(|r| if let Some(RFrame::SynAck { nonce_ack, .. }) = r.frame { Some(nonce_ack) } else { None }).last();
@@ -239,6 +266,11 @@ fn check_disconnect(w: &mut World, ci: usize, t_end_ns: u64) -> bool {
             Some(e) => e.clone(),
             None => continue,
         };
+        // the peer's connection ended before the call (for whatever reason: a stale Disconnect frame
+        // of an earlier connection of the same address pair ends a new one): nothing to flush to
+        if (p_disc.t_ns, 0) < (td.t_ns, 0) {
+            continue;
+        }
         // peer application ended it itself before it saw Disconnect: no obligation
         if p_ev.iter().any(|e| matches!(e.ev, Ev::AppDisconnect | Ev::AppDisconnectNow | Ev::AppDrop) && e.t_ns <= p_disc.t_ns) {
             continue;
@@ -521,6 +553,7 @@ pub fn run_lifecycle(seed: u64, params: &Params, out: &mut ScnOut) {
     }
     let t_end = w.now_ns;
     check_payloads(&mut w);
+    check_syn_handling(&mut w);
     let mut nontrivial_c09 = false;
     for ci in 0..w.clients.len() {
         if check_disconnect(&mut w, ci, t_end) {
@@ -1512,8 +1545,11 @@ pub fn run_timers(seed: u64, params: &Params, out: &mut ScnOut) {
     ccfg.max_packet_size = ccfg.max_packet_size.min(scfg_ep.max_receive_alloc);
     ccfg.max_receive_alloc = ccfg.max_receive_alloc.max(scfg_ep.max_packet_size);
     if idle_focus {
-        for c in [&mut scfg_ep, &mut ccfg] {
-            c.keepalive = true;
+        // keepalive on both sides, or on one side only (its keepalives are answered, which keeps
+        // both ends supplied with frames)
+        let pattern = rng.below(4);
+        for (k, c) in [&mut scfg_ep, &mut ccfg].into_iter().enumerate() {
+            c.keepalive = pattern < 2 || pattern as usize == 2 + k;
             c.keepalive_interval_ms = *rng.pick(&[500u64, 2000, 5000]);
             c.active_timeout_ms = *rng.pick(&[10_000u64, 20_000, 60_000]);
         }
@@ -1760,40 +1796,54 @@ pub fn run_timers(seed: u64, params: &Params, out: &mut ScnOut) {
     // ACKs leave the client established long before the server is: not loss-free)
     if !blackout && !disc_called && lose_ack == 0 {
         let step_max = w.clients[ci].max_step_gap_ns.max(w.server.max_step_gap_ns) / MS;
-        for (name, evs, my_to, peer_ka, peer_ka_int) in [
-            ("client", w.clients[ci].events.clone(), ccfg.active_timeout_ms, scfg_ep.keepalive, scfg_ep.keepalive_interval_ms),
-            ("server", w.server.events.iter().filter(|(a, _)| *a == addr).map(|(_, e)| e.clone()).collect::<Vec<_>>(), scfg_ep.active_timeout_ms, ccfg.keepalive, ccfg.keepalive_interval_ms),
-        ] {
-            // the peer's keepalives are what keeps this side alive; the documentation caps their
-            // pace at max(interval, 2 s, RTO); RTO is below 2 s on this network after feedback
-            let (peer_rto, my_rto) = if name == "client" { (max_rto_server, max_rto_client) } else { (max_rto_client, max_rto_server) };
-            let needed = peer_ka_int.max(2000).max(peer_rto) + 2 * latency + 2 * step_max + 500;
-            // both directions must be inside the documented domain, or one side legitimately
-            // times out first and the other then starves
-            let needed_other = if name == "client" { ccfg.keepalive_interval_ms } else { scfg_ep.keepalive_interval_ms }.max(2000).max(my_rto) + 2 * latency + 2 * step_max + 500;
-            let other_ok = if name == "client" { ccfg.keepalive && scfg_ep.active_timeout_ms >= needed_other } else { scfg_ep.keepalive && ccfg.active_timeout_ms >= needed_other };
-            // small steps and latencies on a loss-free network: the RTO is max(4 RTT, 2 s/X) with
-            // RTT <= a few hundred ms and X never halved below the recover rate while idle, i.e.
-            // at most 2 s; there the clause is judged without reference to the RTO the endpoints
-            // themselves arrived at (a rate that collapses while idle inflates it)
-            let fast = step_max <= 100 && latency <= 50;
-            let needed_fast = peer_ka_int.max(2000) + 2 * latency + 2 * step_max + 3500;
-            let other_fast = if name == "client" { ccfg.keepalive && scfg_ep.active_timeout_ms >= ccfg.keepalive_interval_ms.max(2000) + 2 * latency + 2 * step_max + 3500 } else { scfg_ep.keepalive && ccfg.active_timeout_ms >= scfg_ep.keepalive_interval_ms.max(2000) + 2 * latency + 2 * step_max + 3500 };
-            let judged_fast = fast && peer_ka && my_to >= needed_fast && other_fast;
-            if judged_fast {
-                w.c.inc("c10_keepalive_cases_checked_fast_domain");
-            }
-            if (peer_ka && my_to >= needed && other_ok) || judged_fast {
-                w.c.inc("c10_keepalive_cases_checked");
-                let connected = evs.iter().any(|e| e.ev == Ev::Connect);
-                // only judge connections whose peer also connected (otherwise nothing is sent)
-                let both = w.clients[ci].events.iter().any(|e| e.ev == Ev::Connect) && w.server.events.iter().any(|(a, e)| *a == addr && e.ev == Ev::Connect);
-                if connected && both {
-                    // (a timeout reported before the Connect belongs to an earlier handshake attempt)
-                    let t_conn = evs.iter().find(|e| e.ev == Ev::Connect).map_or(0, |e| e.t_ns);
-                    if let Some(e) = evs.iter().find(|e| e.ev == Ev::Error("timeout") && e.t_ns >= t_conn) {
-                        w.viol("C10", "idle-connection-timed-out-despite-keepalive", format!("{} reported Error(Timeout) at t={} ms on a loss-free network although the peer has keepalive on (interval {} ms) and active_timeout_ms = {} (latency {} ms, steps <= {} ms)", name, e.t_ns / MS, peer_ka_int, my_to, latency, step_max));
-                    }
+        // A keepalive is a sync frame, and every sync frame is answered with an (empty) ack frame:
+        // the keepalives of EITHER side keep BOTH sides supplied with frames. So each side reads a
+        // frame at least every `eff` = the shortest pace at which a side with keepalive on sends
+        // them, where the documented pace of a sender is max(interval, 2 s, its RTO).
+        let pace = |on: bool, interval: u64, rto: u64| -> Option<u64> { if on { Some(interval.max(2000).max(rto)) } else { None } };
+        let eff_observed = [pace(ccfg.keepalive, ccfg.keepalive_interval_ms, max_rto_client), pace(scfg_ep.keepalive, scfg_ep.keepalive_interval_ms, max_rto_server)].iter().flatten().min().copied();
+        // small steps and latencies on a loss-free network: the RTO is max(4 RTT, 2 s/X) with RTT
+        // <= a few hundred ms and X never halved below the recover rate while idle, i.e. at most
+        // 2 s; there the clause is judged without reference to the RTO the endpoints themselves
+        // arrived at (a rate that collapses while idle inflates it)
+        let fast = step_max <= 100 && latency <= 50;
+        let eff_apriori = [pace(ccfg.keepalive, ccfg.keepalive_interval_ms, 0), pace(scfg_ep.keepalive, scfg_ep.keepalive_interval_ms, 0)].iter().flatten().min().copied();
+        let min_to = ccfg.active_timeout_ms.min(scfg_ep.active_timeout_ms);
+        // a keepalive leaves with the flush of the step after the one that found it due, is read
+        // at the peer's next step, answered with the flush of the step after that, and read one
+        // step later: five step intervals and two latencies on top of the pace
+        let slack = 2 * latency + 5 * step_max;
+        // Outside the idle-after-a-short-exchange scenarios a side is only judged when the PEER's
+        // own keepalives supply it (both sides on, each pace inside the other's timeout): after a
+        // heavy one-way transfer the receiving endpoint, whose send rate never left its initial
+        // one frame per second, can owe thousands of acknowledgement groups, which it sends one
+        // per step and ahead of any keepalive (see the observations in DESIGN I.7).
+        let symmetric_ok = ccfg.keepalive && scfg_ep.keepalive
+            && ccfg.active_timeout_ms >= scfg_ep.keepalive_interval_ms.max(2000).max(max_rto_server) + slack + 500
+            && scfg_ep.active_timeout_ms >= ccfg.keepalive_interval_ms.max(2000).max(max_rto_client) + slack + 500;
+        let judged_general = if idle_focus { eff_observed.map_or(false, |e| min_to >= e + slack + 500) } else { symmetric_ok };
+        let judged_fast = idle_focus && fast && eff_apriori.map_or(false, |e| min_to >= e + slack + 3500);
+        if judged_fast {
+            w.c.inc("c10_keepalive_cases_checked_fast_domain");
+        }
+        if ccfg.keepalive != scfg_ep.keepalive && (judged_general || judged_fast) {
+            w.c.inc("c10_keepalive_cases_one_sided");
+        }
+        if judged_general || judged_fast {
+            w.c.inc("c10_keepalive_cases_checked");
+            let both = w.clients[ci].events.iter().any(|e| e.ev == Ev::Connect) && w.server.events.iter().any(|(a, e)| *a == addr && e.ev == Ev::Connect);
+            for (name, evs, my_to) in [
+                ("client", w.clients[ci].events.clone(), ccfg.active_timeout_ms),
+                ("server", w.server.events.iter().filter(|(a, _)| *a == addr).map(|(_, e)| e.clone()).collect::<Vec<_>>(), scfg_ep.active_timeout_ms),
+            ] {
+                if !both {
+                    continue;
+                }
+                // (a timeout reported before the Connect belongs to an earlier handshake attempt)
+                let t_conn = evs.iter().find(|e| e.ev == Ev::Connect).map_or(0, |e| e.t_ns);
+                if let Some(e) = evs.iter().find(|e| e.ev == Ev::Error("timeout") && e.t_ns >= t_conn) {
+                    w.viol("C10", "idle-connection-timed-out-despite-keepalive", format!("{} reported Error(Timeout) at t={} ms on a loss-free network although keepalives flow (client: {} every {} ms, server: {} every {} ms; each is answered by the other side) and active_timeout_ms = {} (latency {} ms, steps <= {} ms)", name, e.t_ns / MS, if ccfg.keepalive { "on" } else { "off" }, ccfg.keepalive_interval_ms, if scfg_ep.keepalive { "on" } else { "off" }, scfg_ep.keepalive_interval_ms, my_to, latency, step_max));
+                    break;
                 }
             }
         }
@@ -2093,6 +2143,116 @@ pub fn run_disconnect(seed: u64, params: &Params, out: &mut ScnOut) {
 // =============================================================================================
 // C17: connection limits
 
+/// Offline, from the wire and the events only: what the server does with a SYN that reaches it.
+/// (1) A SYN is answered (SYN-ACK or error) within two steps unless the server has a reason to
+/// ignore it: a connection of that address it has reported and not ended, one the peer ended less
+/// than 21 s ago (the documented linger), or a handshake it admitted less than 23 s ago (whose
+/// resend timer answers). A pending entry that outlives its 22 s makes the server deaf to the
+/// address. (2) A Connect must rest on a handshake that is still alive: the SYN-ACK whose nonce
+/// the ACK returns was first sent less than 23 s earlier.
+fn check_syn_handling(w: &mut World) {
+    use std::collections::BTreeMap;
+    let srv = w.server.addr;
+    let gap = w.server.max_step_gap_ns;
+    let mut synacks: BTreeMap<SocketAddr, Vec<(u64, u32)>> = BTreeMap::new(); // (t, server nonce)
+    let mut replies: BTreeMap<SocketAddr, Vec<u64>> = BTreeMap::new();
+    for r in w.wire.iter() {
+        if r.src == srv && !r.injected {
+            match r.frame {
+                Some(RFrame::SynAck { nonce, .. }) => {
+                    synacks.entry(r.dst).or_default().push((r.t_ns, nonce));
+                    replies.entry(r.dst).or_default().push(r.t_ns);
+                }
+                Some(RFrame::Error { .. }) => replies.entry(r.dst).or_default().push(r.t_ns),
+                _ => {}
+            }
+        }
+    }
+    let mut intervals: Vec<(SocketAddr, u64, u64, bool)> = Vec::new(); // (addr, connect, end, ended by peer's Disconnect)
+    {
+        let mut open: BTreeMap<SocketAddr, u64> = BTreeMap::new();
+        let mut own: BTreeMap<SocketAddr, bool> = BTreeMap::new();
+        for (a, e) in w.server.events.iter() {
+            match e.ev {
+                Ev::Connect => {
+                    open.insert(*a, e.t_ns);
+                    own.insert(*a, false);
+                }
+                Ev::AppDisconnect | Ev::AppDisconnectNow => {
+                    own.insert(*a, true);
+                }
+                Ev::Disconnect | Ev::Error(_) | Ev::AppDrop => {
+                    if let Some(t0) = open.remove(a) {
+                        // (an entry may linger after any Disconnect: also when the application had
+                        // asked for a graceful close that the peer's own request overtook)
+                        let _ = &own;
+                        intervals.push((*a, t0, e.t_ns, e.ev == Ev::Disconnect));
+                    }
+                }
+                _ => {}
+            }
+        }
+        for (a, t0) in open {
+            intervals.push((a, t0, u64::MAX, false));
+        }
+    }
+    let t_last_step = w.server.step_times.last().copied().unwrap_or(0);
+    let syns: Vec<(u64, SocketAddr)> = w.delivered.iter().filter(|d| d.dst == srv && !d.injected && matches!(d.frame, Some(RFrame::Syn { version: 3, .. }))).map(|d| (d.t_ns, d.src)).collect();
+    let mut deaf: Option<String> = None;
+    for (t, x) in syns {
+        if t + 2 * gap + 200 * MS > t_last_step {
+            continue; // the server did not get two more steps
+        }
+        w.c.inc("c07_syns_delivered_checked");
+        let answered = replies.get(&x).map_or(false, |v| v.iter().any(|&r| r >= t && r <= t + 2 * gap + 200 * MS));
+        if answered {
+            continue;
+        }
+        let reason = intervals.iter().any(|(a, c, e, by_peer)| *a == x && *c <= t + gap && (*e == u64::MAX || e.saturating_add(if *by_peer { 21 * SEC } else { SEC }) >= t))
+            || synacks.get(&x).map_or(false, |v| v.iter().any(|&(ts, _)| ts <= t + gap && t <= ts + 23 * SEC));
+        if !reason && deaf.is_none() {
+            let last = synacks.get(&x).and_then(|v| v.iter().filter(|s| s.0 <= t).last().map(|s| s.0));
+            deaf = Some(format!("a SYN from {} delivered to the server at t={} ms got no reply within two steps, although the server holds no connection of that address (none reported and open, none ended by the peer in the last 21 s) and the last SYN-ACK it sent there was at {:?} ms (a pending handshake lives 22 s)", x, t / MS, last.map(|v| v / MS)));
+        }
+    }
+    if let Some(m) = deaf {
+        w.viol("C07", "syn-ignored-without-reason", m);
+    }
+    // (2) Connect resting on an expired handshake
+    let mut stale: Option<String> = None;
+    for (a, e) in w.server.events.iter() {
+        if e.ev != Ev::Connect {
+            continue;
+        }
+        // the ACK that was delivered last before this Connect, and the first transmission of the SYN-ACK it answers
+        let ack = w.delivered.iter().filter(|d| d.dst == srv && d.src == *a && d.t_ns <= e.t_ns).filter_map(|d| if let Some(RFrame::Ack { nonce_ack }) = d.frame { Some((d.t_ns, nonce_ack)) } else { None }).last();
+        if let Some((_, n)) = ack {
+            // the most recent run of SYN-ACKs with that nonce before the Connect
+            if let Some(v) = synacks.get(a) {
+                let mut first: Option<u64> = None;
+                let mut prev_t: Option<u64> = None;
+                for &(ts, nn) in v.iter().filter(|s| s.0 <= e.t_ns) {
+                    if nn == n {
+                        if first.is_none() || prev_t.map_or(false, |p| ts > p + 3 * SEC) {
+                            first = Some(ts);
+                        }
+                        prev_t = Some(ts);
+                    }
+                }
+                if let Some(f) = first {
+                    w.c.inc("c07_connects_dated");
+                    if e.t_ns > f + 23 * SEC + 2 * gap && stale.is_none() {
+                        stale = Some(format!("server reported Connect for {} at t={} ms on an ACK returning the nonce of a SYN-ACK first sent at t={} ms: that handshake expired after 22 s", a, e.t_ns / MS, f / MS));
+                    }
+                }
+            }
+        }
+    }
+    if let Some(m) = stale {
+        w.viol("C07", "connect-from-expired-handshake", m);
+    }
+}
+
 /// Offline, from the wire and the server's event stream only: whenever the server admits a new
 /// handshake (a SYN-ACK with a nonce pair it has not sent to that address just before), the
 /// connections it certainly holds at that instant — established ones (between Connect and their
@@ -2183,9 +2343,9 @@ fn check_admissions(w: &mut World, max_total: usize) {
     let refusals: Vec<(u64, SocketAddr)> = w.wire.iter().filter(|r| r.src == srv && !r.injected && matches!(r.frame, Some(RFrame::Error { error: 2, .. }))).map(|r| (r.t_ns, r.dst)).collect();
     // how each established interval ended
     let ended_by_peer_disconnect = |a: &SocketAddr, e: u64| -> bool {
-        let disc = w.server.events.iter().any(|(x, ev)| x == a && ev.t_ns == e && ev.ev == Ev::Disconnect);
-        let own = w.server.events.iter().any(|(x, ev)| x == a && ev.t_ns <= e && matches!(ev.ev, Ev::AppDisconnect | Ev::AppDisconnectNow));
-        disc && !own
+        // (also when the server application had asked for a graceful close that the peer's own
+        // request overtook: the entry lingers after any Disconnect)
+        w.server.events.iter().any(|(x, ev)| x == a && ev.t_ns == e && ev.ev == Ev::Disconnect)
     };
     for (t, x) in refusals {
         w.c.inc("c17_refusals_checked");
@@ -2406,6 +2566,7 @@ pub fn run_limits(seed: u64, params: &Params, out: &mut ScnOut) {
         }
     }
     check_admissions(&mut w, max_total);
+    check_syn_handling(&mut w);
     // phase 2: everything ends; after the closed linger capacity must be available again
     for k in 0..n_clients {
         if let Some(i) = idx[k] {
@@ -2598,6 +2759,18 @@ pub fn run_amplify(seed: u64, params: &Params, out: &mut ScnOut) {
     let horizon = if long_run { 600 * SEC } else { 55 * SEC };
     let greet = *rng.pick(&[0usize, 2, 8]);
     let mut greeted = 0usize;
+    // (time, length) of the pauses in the server's stepping; timers that come due meanwhile are
+    // all handled by one late step
+    let mut hr = Rng::new(seed ^ 0x41cc);
+    let mut hiccups: Vec<(u64, u64)> = Vec::new();
+    if long_run || hr.chance(0.3) {
+        for _ in 0..hr.range(1, 4) {
+            hiccups.push((hr.range(0, 45_000) * MS, *hr.pick(&[2100u64, 2600, 4500, 9000, 23_000]) * MS));
+        }
+        hiccups.sort();
+    }
+    let mut hiccup_i = 0usize;
+    let horizon = if hiccups.is_empty() { horizon } else { horizon.max(200 * SEC) };
     while w.now_ns <= horizon && !w.panicked {
         while pi < plan.len() && plan[pi].0 <= w.now_ns {
             let (_, a, ref bytes, label) = plan[pi];
@@ -2612,6 +2785,12 @@ pub fn run_amplify(seed: u64, params: &Params, out: &mut ScnOut) {
             });
             w.inject(addr_of(a), srv, bytes.clone(), 0);
             pi += 1;
+        }
+        // an application that stalls: the server is not stepped for a few seconds now and then
+        if hiccup_i < hiccups.len() && w.now_ns >= hiccups[hiccup_i].0 {
+            w.server.next_step_ns = w.server.next_step_ns.max(w.now_ns + hiccups[hiccup_i].1);
+            hiccup_i += 1;
+            w.c.inc("amp_server_hiccups");
         }
         let who = match w.step_next() {
             Some(x) => x,
